@@ -42,6 +42,16 @@ CLAIMED = {
  "C14": dict(level="other", technique="static analysis: loop-progress cut-set check, per-path and per-iteration event counters in the path-sensitive dataflow, typestate edges of peripheral events, who-consumes-result check over rustc MIR",
    text="Decides: the DP master's slot loop advances the cycle state on every path around the loop (turn always ends, also with zero peripherals); no assertion on the number of peripheral events; cycle_completed is stored true exactly when the slot iteration reported the end of the pass and the iteration's verdict is always consumed; exactly one events-slot store before every return and an event obtained on a path is the one stored; peripheral events are raised only on their life-cycle edges; is_live/is_running tables; one Offline per drop-out (retry pairing). Slot order under storage mutation mid-cycle is not decided.",
    note="Trusted: " + TB + "; PeripheralSet::get_next_index returns a later slot or None.", ref="§4-C14"),
+
+ "C12": dict(level="proof", technique="static analysis: zone-domain proof of the next_gap_poll post-condition with path partitioning; provenance by per-iteration counters in the current-state dataflow; typestate (interprocedural variant analysis) and must-guard dataflow over rustc MIR",
+   text="The post-condition of next_gap_poll is proved for all (current, TS, NS, HSA) under the stated hypotheses: every DoPoll address lies strictly inside the cyclic GAP (TS, NS), differs from TS and is <= HSA-1, without overflow. Every GAP request address was just computed against the current successor; claiming restarts the sweep; single sender with da = DoPoll address, sa = own; DoGap::Yes only from UseToken and the poll guarded by it; wait counter discipline; successor adoption guards; truthful status replies (ready iff LAS valid and requester is predecessor; in-ring from ActiveIdle), request recording guards, LAS validity edges and pass verification. Bounded-visits coverage of the GAP is not decided.",
+   note="Trusted: " + TB + "; numdom transfer functions; hypothesis address < HSA <= 126 (ParametersBuilder) and DoPoll payload <= HSA-1 (writer clause a').", ref="§4-C12"),
+ "C13": dict(level="other", technique="static analysis: must-guard dataflow on the hold-time comparisons, current-state (mem-kill) facts and counters for store order and flag discipline, who-may-call over the call graph, typestate for DoGap::Yes over rustc MIR",
+   text="Decides the hold-time guard structure: applications are offered normal cycles only before the deadline and one high-priority cycle per visit after it, these being the only ways an application is asked to transmit; idle token use ends in a pass request; deadline = previous receipt + TTR computed before the receipt time is updated, once per visit, GAP reserve only when a poll is due; receipt times are now; the one-cycle flag starts false, is set before each cycle and stays set after reply/time-out; at most one GAP poll per visit. The ring-wide rotation bound is not decided.",
+   note="Trusted: " + TB + ".", ref="§4-C13"),
+ "C15": dict(level="other", technique="static analysis: call-site typestates from the interprocedural variant analysis, must-guard dataflow for reply admission / time-out delivery, who-writes x typestate for the application index, value-term checks for round-robin arithmetic, constant tables over rustc MIR",
+   text="Decides: applications are asked to transmit only in UseToken and get replies/time-outs only in AwaitDataResponse, after which the station is back in UseToken; the wait is entered only for requests expecting a reply; admission filter (source, destination, response) and time-out guard; reply and time-out go to apps[next_application], which only the scheduler writes, only in UseToken; next index = (index+1) mod n, cycle completed iff back at the visit's first application, visit data carried unchanged through the wait; expects_reply tables. Fairness over schedules is not decided.",
+   note="Trusted: " + TB + "; callback contracts of the provided PHY helpers (checked by C16).", ref="§4-C15"),
 }
 
 NA = {
